@@ -45,7 +45,12 @@ type Msg struct {
 type Attempt struct {
 	// Conn: "ok" (the constructor returns an Impl after ConnDelay units),
 	// "err" (it fails after ConnDelay units), "park" (it blocks until its
-	// context is cancelled or the destination timeout elapses, then fails).
+	// context is cancelled or the destination timeout elapses, then fails),
+	// "deaf" (a transport that does not watch its context: the constructor
+	// takes ConnDelay units whatever happens and then succeeds, the stream
+	// hands over its scripted messages and its scripted end until the Impl
+	// itself is closed; only a stream with nothing left - End "block" -
+	// notices the cancellation).
 	Conn      string `json:"conn"`
 	ConnDelay int    `json:"conn_delay,omitempty"`
 	// Sub: "ok" or "err" (Impl.Subscribe fails).
@@ -95,6 +100,18 @@ func (sc *Scenario) timeout() time.Duration {
 	return time.Duration(sc.Timeout) * Unit
 }
 
+// deafLife is how long a deaf attempt can keep a client busy once started.
+func (a Attempt) deafLife() time.Duration {
+	if a.Conn != "deaf" {
+		return 0
+	}
+	n := a.ConnDelay + a.EndDelay
+	for _, m := range a.Msgs {
+		n += m.Delay
+	}
+	return time.Duration(n) * Unit
+}
+
 var defaultAttempt = Attempt{Conn: "ok", Sub: "ok", End: "block"}
 
 func (sc *Scenario) attempt(i int) Attempt {
@@ -123,7 +140,7 @@ func (sc *Scenario) validate() error {
 	}
 	for i, a := range sc.Attempts {
 		switch a.Conn {
-		case "ok", "err", "park":
+		case "ok", "err", "park", "deaf":
 		default:
 			return fmt.Errorf("attempt %d conn %q", i, a.Conn)
 		}
@@ -159,6 +176,8 @@ func (sc *Scenario) validate() error {
 	} else if sc.Pending != 0 {
 		return fmt.Errorf("pending messages are a plain-client feature")
 	}
+	// (A deaf transport under a client that was closed before Subscribe is
+	// accepted here for replays but never generated: see genScenario.)
 	if sc.Pending > 0 && (sc.PendingN < 1 || sc.PendingN > 16) {
 		return fmt.Errorf("pending_n %d", sc.PendingN)
 	}
@@ -209,8 +228,8 @@ func (sc *Scenario) predict(n int) []span {
 		s := span{start: t}
 		okErr := false // attempt returns nil
 		d := time.Duration(a.ConnDelay) * Unit
-		failed := a.Conn != "ok"
-		if a.Conn == "park" || d > sc.timeout() {
+		failed := a.Conn != "ok" && a.Conn != "deaf"
+		if a.Conn == "park" || (d > sc.timeout() && a.Conn != "deaf") {
 			d = sc.timeout()
 			failed = true
 		}
